@@ -72,8 +72,8 @@ def gen_cases(prop, seed):
         # judged by the history engine, reported under this property
         from .hgen import gen_history
         return [gen_history(seed, prop)]
-    if prop in ('C07', 'C08', 'C11') and seed % 12 == 5:
-        return [gen_rerun_case(rng)]
+    if prop in RERUN_PROPS and seed % 12 == 5:
+        return [gen_rerun_case(rng, coro=prop == 'C02')]
     if prop in ('C02', 'C12', 'C01', 'C03') and seed % 10 == 1:
         top, knobs = gen.gen_motif(seed)
         return [make_case(top, knobs, {"motif": True})]
@@ -132,21 +132,34 @@ RERUN_PROFILE = P(forbid=('coro', 'inspect'), windows=0.7, timeouts=0.6,
                   max_jobs=8)
 
 
-def gen_rerun_case(rng):
+RERUN_PROPS = ('C02', 'C04', 'C07', 'C08', 'C11', 'C12')
+RERUN_CORO_PROFILE = P(forbid=('inspect',), coro=1.0, windows=0.5,
+                       timeouts=0.3, nesting=0.5, forever=0.3, max_depth=2,
+                       max_jobs=8)
+
+
+def gen_rerun_case(rng, coro=False):
     """
     The same scheduler objects run twice, jobs_window / timeout re-assigned in
-    between. The library re-runs trees without requirements only (with
-    requirements a second run dies on the clean tree), so edges are dropped;
-    jobs are AbstractJob subclasses (a coroutine object cannot be awaited
-    twice).
+    between, members removed (possibly all of them) and new jobs added. The
+    library re-runs trees without requirements only (with requirements a
+    second run dies on the clean tree), so edges are dropped; jobs are
+    AbstractJob subclasses (a coroutine object cannot be awaited twice).
     """
-    top, feat = gen.gen_tree(rng, RERUN_PROFILE)
+    # (coro: some jobs are Job(coroutine object) instances; what Python does
+    # to those in a second run - RuntimeError, the body does not run - is
+    # their outcome then: see c02)
+    top, feat = gen.gen_tree(rng, RERUN_CORO_PROFILE if coro
+                             else RERUN_PROFILE)
     for node, _, _ in S.walk(top):
         if S.is_sched(node):
             node['edges'] = []
             node['build'] = 'ctor'
-        else:
+        elif not coro:
             node['cls'] = 'abstract'
+        elif node['cls'] == 'coro':
+            node['handler'] = []
+            node['critical'] = False
     if not S.admissible(top):
         gen._repair(top, rng)
     attrs2 = {}
@@ -158,6 +171,27 @@ def gen_rerun_case(rng):
             if rng.random() < 0.5:
                 tmo = rng.choice((None, 0.5, 1.0, 1.5, 2.125, 3.0))
             attrs2[node['id']] = {"window": win, "timeout": tmo}
+    if rng.random() < 0.5:
+        # membership edited between the two runs
+        extra, _ = gen.gen_tree(rng, RERUN_PROFILE)
+        fresh = [S.clone(n) for n, _, _ in S.walk(extra) if not S.is_sched(n)]
+        for k, node in enumerate(fresh):
+            node['id'] = 'x%d' % (k + 1)
+            node['cls'] = 'abstract'
+            node['forever'] = False
+            if 'label' in node:
+                del node['label']
+        for node, _, _ in S.walk(top):
+            if not S.is_sched(node):
+                continue
+            mem = [m['id'] for m in node['members']]
+            if mem and rng.random() < 0.4:
+                k = len(mem) if rng.random() < 0.35 else \
+                    rng.randrange(1, len(mem) + 1)
+                attrs2[node['id']]["drop"] = rng.sample(mem, k)
+            if fresh and rng.random() < 0.4:
+                k = rng.choice((1, 1, 2, 3))
+                attrs2[node['id']]["new"], fresh = fresh[:k], fresh[k:]
     knobs = gen.gen_knobs(rng, feat)
     knobs['noise'] = 0
     return {"spec": top, "knobs": knobs, "choices": None,
@@ -166,10 +200,16 @@ def gen_rerun_case(rng):
 
 def second_spec(case):
     spec2 = S.clone(case['spec'])
-    for node, _, _ in S.walk(spec2):
+    for node, _, _ in list(S.walk(spec2)):
         if S.is_sched(node) and node['id'] in case['attrs2']:
-            node['window'] = case['attrs2'][node['id']]['window']
-            node['timeout'] = case['attrs2'][node['id']]['timeout']
+            attrs = case['attrs2'][node['id']]
+            node['window'] = attrs['window']
+            node['timeout'] = attrs['timeout']
+            drop = set(attrs.get('drop') or ())
+            node['members'] = [m for m in node['members']
+                               if m['id'] not in drop]
+            node['members'] += [S.clone(n) for n in attrs.get('new') or ()]
+            node['edges'] = []
     return spec2
 
 
@@ -200,12 +240,16 @@ def evaluate_rerun(prop, case):
             prop, 'second-run-does-not-terminate', 'rerun',
             "second run of the same scheduler: {} ({})".format(
                 run.outcome, run.value)))
-    elif prop == 'C07':
-        viols = oracles.c07(hist, stats)
-    elif prop == 'C08':
-        viols = oracles.c08(hist, stats)
-    elif prop == 'C11':
-        viols = oracles.c11(hist, stats)
+    else:
+        fn = oracles.ORACLES[prop]
+        viols = fn(hist) if fn in (oracles.c02, oracles.c04) \
+            else fn(hist, stats)
+    for nid, seq, t in hist.stray:
+        viols.append(oracles.Violation(
+            prop, 'removed-job-takes-part-in-second-run', 'rerun',
+            "{} was removed from its scheduler between the two runs but "
+            "logged an event at seq {} t={}".format(nid, seq, t)))
+        break
     for v in viols:
         v.site = 'rerun-' + v.site
     stats['second_runs_judged'] = 1
